@@ -300,3 +300,138 @@ def get_market_balance(self):
         base_in_position=UnitDecimal(base_dep, self.base_token.name), quote_in_position=UnitDecimal(quote_dep, self.quote_token.name),
         position_count=len(list(filter(lambda q: not q.transferred, self._positions.values()))))
 '''
+
+# ---- public wrappers around the private add / collect primitives (added for the second round of seeded defects) ----
+# Defaults: None means "the whole wallet balance of that token"; -1 means "not given".
+REF_ADD_PUBLIC = '''
+def add_liquidity(self, lower_quote_price, upper_quote_price, quote_max_amount=None, base_max_amount=None):
+    if base_max_amount is None:
+        base_max_amount = self.broker.get_token_balance(self.base_token)
+    if quote_max_amount is None:
+        quote_max_amount = self.broker.get_token_balance(self.quote_token)
+    if self._is_token0_quote:
+        amt0 = quote_max_amount
+        amt1 = base_max_amount
+    else:
+        amt0 = base_max_amount
+        amt1 = quote_max_amount
+    ticks = V3CoreLib.quote_price_pair_to_tick(self._pool, lower_quote_price, upper_quote_price)
+    lo = nearest_usable_tick(ticks[0], self.pool_info.tick_spacing)
+    hi = nearest_usable_tick(ticks[1], self.pool_info.tick_spacing)
+    r = self._add_liquidity_by_tick(amt0, amt1, lo, hi)
+    if self._is_token0_quote:
+        base_used = r[2]
+        quote_used = r[1]
+    else:
+        base_used = r[1]
+        quote_used = r[2]
+    self._record_action(AddLiquidityAction(
+        market=self.market_info, base_balance_after=self.broker.get_token_balance_with_unit(self.base_token),
+        quote_balance_after=self.broker.get_token_balance_with_unit(self.quote_token),
+        base_amount_max=UnitDecimal(base_max_amount, self.base_token.name),
+        quote_amount_max=UnitDecimal(quote_max_amount, self.quote_token.name),
+        lower_quote_price=UnitDecimal(lower_quote_price, self._pool_price_unit),
+        upper_quote_price=UnitDecimal(upper_quote_price, self._pool_price_unit),
+        base_amount_actual=UnitDecimal(base_used, self.base_token.name),
+        quote_amount_actual=UnitDecimal(quote_used, self.quote_token.name),
+        position=r[0], liquidity=int(r[3])))
+    return r[0], base_used, quote_used, r[3]
+'''
+
+REF_ADD_BY_TICK_PUBLIC = '''
+def add_liquidity_by_tick(self, lower_tick, upper_tick, base_max_amount=None, quote_max_amount=None, sqrt_price_x96=-1,
+                          tick=-1, trim_tick=True):
+    if trim_tick:
+        lower_tick = nearest_usable_tick(lower_tick, self.pool_info.tick_spacing)
+        upper_tick = nearest_usable_tick(upper_tick, self.pool_info.tick_spacing)
+    lo = min(lower_tick, upper_tick)
+    hi = max(lower_tick, upper_tick)
+    # an explicit sqrt price wins; otherwise an explicit tick (any tick other than the -1 sentinel, negative ticks
+    # included); otherwise the private primitive derives the price from the bar
+    if sqrt_price_x96 == -1:
+        if tick != -1:
+            sqrt_price_x96 = tick_to_sqrt_price_x96(tick)
+    if base_max_amount is None:
+        base_max_amount = self.broker.get_token_balance(self.base_token)
+    if quote_max_amount is None:
+        quote_max_amount = self.broker.get_token_balance(self.quote_token)
+    if self._is_token0_quote:
+        amt0 = quote_max_amount
+        amt1 = base_max_amount
+    else:
+        amt0 = base_max_amount
+        amt1 = quote_max_amount
+    r = self._add_liquidity_by_tick(amt0, amt1, lo, hi, sqrt_price_x96)
+    if self._is_token0_quote:
+        base_used = r[2]
+        quote_used = r[1]
+    else:
+        base_used = r[1]
+        quote_used = r[2]
+    self._record_action(AddLiquidityAction(
+        market=self.market_info, base_balance_after=self.broker.get_token_balance_with_unit(self.base_token),
+        quote_balance_after=self.broker.get_token_balance_with_unit(self.quote_token),
+        base_amount_max=UnitDecimal(base_max_amount, self.base_token.name),
+        quote_amount_max=UnitDecimal(quote_max_amount, self.quote_token.name),
+        lower_quote_price=UnitDecimal(self.tick_to_price(lo), self._pool_price_unit),
+        upper_quote_price=UnitDecimal(self.tick_to_price(hi), self._pool_price_unit),
+        base_amount_actual=UnitDecimal(base_used, self.base_token.name),
+        quote_amount_actual=UnitDecimal(quote_used, self.quote_token.name),
+        position=r[0], liquidity=int(r[3])))
+    return r[0], base_used, quote_used, r[3]
+'''
+
+REF_COLLECT_PUBLIC = '''
+def collect_fee(self, position, max_collect_amount0=None, max_collect_amount1=None, remove_dry_pool=True, collect_to_user=True):
+    if max_collect_amount0 and max_collect_amount0 < 0:
+        raise DemeterError("negative")
+    if max_collect_amount1 and max_collect_amount1 < 0:
+        raise DemeterError("negative")
+    got = self.__collect_fee(self._positions[position], max_collect_amount0, max_collect_amount1, collect_to_user)
+    if self._is_token0_quote:
+        base_get = got[1]
+        quote_get = got[0]
+    else:
+        base_get = got[0]
+        quote_get = got[1]
+    self._record_action(CollectFeeAction(
+        market=self.market_info, base_balance_after=self.broker.get_token_balance_with_unit(self.base_token),
+        quote_balance_after=self.broker.get_token_balance_with_unit(self.quote_token), position=position,
+        base_amount=UnitDecimal(base_get, self.base_token.name), quote_amount=UnitDecimal(quote_get, self.quote_token.name)))
+    p = self._positions[position]
+    if p.pending_amount0 == Decimal(0) and p.pending_amount1 == Decimal(0) and p.liquidity == 0 and remove_dry_pool:
+        del self.positions[position]
+    return base_get, quote_get
+'''
+
+REF_POSITION_AMOUNT = '''
+def get_position_amount(self, position_info):
+    if position_info not in self.positions:
+        return DECIMAL_0, DECIMAL_0
+    sqrt_price = base_unit_price_to_sqrt_price_x96(self._market_status.data.price, self._pool.token0.decimal,
+                                                   self._pool.token1.decimal, self._is_token0_quote)
+    both = V3CoreLib.get_token_amounts(self._pool, position_info, sqrt_price, self.positions[position_info].liquidity)
+    return both[0], both[1]
+'''
+
+REF_POSITION_STATUS = '''
+def get_position_status(self, pos_key):
+    require(pos_key in self.positions, "Position not exist")
+    price = self._market_status.data.price
+    p = self.positions[pos_key]
+    liq = self.get_position_amount(pos_key)
+    return PositionStatus(
+        liquidity=p.liquidity, liquidity_amount0=liq[0], liquidity_amount1=liq[1],
+        liquidity_value=self._get_value(liq[0], liq[1], price),
+        pending_amount0=p.pending_amount0, pending_amount1=p.pending_amount1,
+        pending_value=self._get_value(p.pending_amount0, p.pending_amount1, price),
+        amount0=liq[0] + p.pending_amount0, amount1=liq[1] + p.pending_amount1,
+        value=self._get_value(liq[0] + p.pending_amount0, liq[1] + p.pending_amount1, price),
+        H=p.upper_price / p.init_price, L=p.lower_price / p.init_price, P=price / p.init_price)
+'''
+
+REF_REMOVE_ALL = '''
+def remove_all_liquidity(self):
+    for key in list(self.positions.keys()):
+        self.remove_liquidity(key)
+'''
